@@ -833,12 +833,15 @@ CS101_FileServer_handleAsdu(void* parameter, IMasterConnection connection,  CS10
                             }
                             else
                             {
-                                /* positive */
-                                self->currentSectionSize = self->selectedFile->getSectionSize(self->selectedFile, nos - 1);
+                                /* positive - only the section announced with SECTION READY can be called */
+                                int sectionSize = 0;
 
-                                if (self->currentSectionSize > 0)
+                                if (nos == self->currentSectionNumber)
+                                    sectionSize = self->selectedFile->getSectionSize(self->selectedFile, nos - 1);
+
+                                if (sectionSize > 0)
                                 {
-                                    self->currentSectionNumber = nos;
+                                    self->currentSectionSize = sectionSize;
                                     self->currentSectionOffset = 0;
 
                                     self->state = TRANSMIT_SECTION;
